@@ -859,6 +859,8 @@ pub struct Catalog {
     pub builtins: usize,
     pub fams: model::evo::Families,
     pub infos: Vec<crate::families_gen::FamilyInfo>,
+    /// C12: groups of mutually replaceable containers (entry indices), one group per element type
+    pub matrix: Vec<Vec<usize>>,
 }
 
 impl Catalog {
@@ -910,6 +912,63 @@ pub fn builtin_catalog() -> Catalog {
             e.recursive = true;
         }
     }
+    // ---- C12 matrix: every container of the family over every element type ------------------------
+    let mut matrix: Vec<Vec<usize>> = Vec::new();
+    macro_rules! seq_group {
+        ($($e:ty),*) => {$({
+            let en = stringify!($e).replace(' ', "");
+            let mut g = Vec::new();
+            macro_rules! add { ($t:ty, $n:expr) => {{
+                let name: &'static str = Box::leak(format!("m.{}<{}>", $n, en).into_boxed_str());
+                g.push(entries.len());
+                entries.push(entry::<$t>(name, r));
+            }}; }
+            add!(Vec<$e>, "Vec");
+            add!(LinkedList<$e>, "LinkedList");
+            add!(BTreeSet<$e>, "BTreeSet");
+            add!(HashSet<$e>, "HashSet");
+            add!([$e; 2], "Array2");
+            add!([$e; 3], "Array3");
+            add!(Streamed<$e>, "Streamed");
+            add!(SliceOf<$e>, "SliceOf");
+            add!(RcSlice<$e>, "RcSlice");
+            matrix.push(g);
+        })*};
+    }
+    seq_group!(u16, String, i64, (u8, u16), i8, u32, bool, i16, char, u64, Option<u8>, (), i128, Uuid, (String, bool));
+    macro_rules! pair_group {
+        ($(($k:ty, $v:ty)),*) => {$({
+            let en = format!("{},{}", stringify!($k), stringify!($v)).replace(' ', "");
+            let mut g = Vec::new();
+            macro_rules! add { ($t:ty, $n:expr) => {{
+                let name: &'static str = Box::leak(format!("m.{}<{}>", $n, en).into_boxed_str());
+                g.push(entries.len());
+                entries.push(entry::<$t>(name, r));
+            }}; }
+            add!(Vec<($k, $v)>, "VecPairs");
+            add!(LinkedList<($k, $v)>, "ListPairs");
+            add!(BTreeMap<$k, $v>, "BTreeMap");
+            add!(HashMap<$k, $v>, "HashMap");
+            add!(Streamed<($k, $v)>, "StreamedPairs");
+            add!(BTreeSet<($k, $v)>, "SetPairs");
+            matrix.push(g);
+        })*};
+    }
+    pair_group!((String, u32), (u8, String), (i8, i8), (u16, ()));
+    {
+        let mut g = Vec::new();
+        macro_rules! add { ($t:ty, $n:expr) => {{
+            g.push(entries.len());
+            entries.push(entry::<$t>($n, r));
+        }}; }
+        add!(Vec<u8>, "m.Vec<u8>");
+        add!(Bytes, "m.Bytes");
+        add!([u8; 4], "m.Array4<u8>");
+        add!([u8; 3], "m.Array3<u8>");
+        add!(SliceOf<u8>, "m.SliceOf<u8>");
+        add!(RcSlice<u8>, "m.RcSlice<u8>");
+        matrix.push(g);
+    }
     let builtins = entries.len();
     let (fe, fams, infos) = crate::families_gen::family_catalog(&mut reg);
     entries.extend(fe);
@@ -918,5 +977,5 @@ pub fn builtin_catalog() -> Catalog {
         let mut seen = Vec::new();
         e.zero_sized_elems = zero_sized_inside(&reg, &e.ty, &mut seen);
     }
-    Catalog { reg, entries, builtins, fams, infos }
+    Catalog { reg, entries, builtins, fams, infos, matrix }
 }
